@@ -496,7 +496,7 @@ TWIN_SHARE = 0.05
 
 
 def gen_case(rng, tier):
-    return _twin.maybe_wrap(rng, _gen_case(rng, tier), TWIN_SHARE,
+    return _twin.maybe_wrap(rng, _gen_case(rng, tier), TWIN_SHARE, gen_other=lambda r: _gen_case(r, tier),
                             ok=lambda c: not ({'before', 'after'} & set(c.get('stages') or {})))
 
 
